@@ -273,3 +273,13 @@ Proof.
   induction k as [|k IH]; intros l x H; [exact H|].
   destruct l as [|y l]; [exact H|]. right. apply IH. exact H.
 Qed.
+
+Lemma NoDup_app_intro {A} : forall (a b : list A),
+  NoDup a -> NoDup b -> (forall x, In x a -> ~ In x b) -> NoDup (a ++ b).
+Proof.
+  induction a as [|x r IH]; intros b Ha Hb Hd; cbn [app]; [exact Hb|].
+  inversion Ha as [|? ? Hx Hr]; subst. constructor.
+  - intros H. apply in_app_or in H. destruct H as [H|H]; [contradiction|].
+    apply (Hd x); [left; reflexivity|exact H].
+  - apply IH; [exact Hr|exact Hb|]. intros y Hy. apply Hd. right; exact Hy.
+Qed.
